@@ -1557,10 +1557,8 @@ static mi_page_t* mi_segments_page_alloc(mi_heap_t* heap, mi_page_kind_t page_ki
     // otherwise try again, but only once: if a span cannot be committed (the OS refuses) we would
     // otherwise keep on allocating fresh segments without ever using them.
     page = mi_segments_page_find_and_allocate(slices_needed, heap->arena_id, tld);
-    if (page==NULL) {
-      if (segment->used == 0) { mi_segment_free(segment, false, tld); }  // don't keep a fresh segment that was never used
-      return NULL;
-    }
+    if (segment->used == 0) { mi_segment_free(segment, false, tld); }  // don't keep a fresh segment that was not used after all
+    if (page==NULL) return NULL;
   }
   mi_assert_internal(page != NULL && page->slice_count*MI_SEGMENT_SLICE_SIZE == page_size);
   mi_assert_internal(_mi_ptr_segment(page)->thread_id == _mi_thread_id());
